@@ -49,9 +49,9 @@ pub fn seed_window(n: usize, thorough: bool, verif_seed: u64) -> Vec<u64> {
     let off = verif_seed.wrapping_mul(4096);
     let mut v: Vec<u64> = match (n, thorough) {
         (512, false) => (0..8).collect(),
-        (512, true) => (0..768).collect(),
+        (512, true) => (0..8192).collect(),
         (_, false) => (0..2).collect(),
-        (_, true) => (0..160).collect(),
+        (_, true) => (0..2048).collect(),
     };
     for x in v.iter_mut() {
         *x = x.wrapping_add(off);
